@@ -13,6 +13,8 @@ pub struct AttrC;
 #[sv::msg_attr(instantiate, derive(PartialOrd))]
 // a second attribute for exec, separated from the first by another kind's line
 #[sv::msg_attr(exec, serde(deny_unknown_fields))]
+// forwarded to the reply kind: there is no generated reply message type, so it must land on NO type
+#[sv::msg_attr(reply, derive(PartialOrd))]
 impl AttrC {
     pub const fn new() -> Self {
         AttrC
@@ -43,6 +45,29 @@ impl AttrC {
     #[sv::msg(sudo)]
     fn plain_sudo(&self, ctx: SudoCtx, a: u64) -> Result<Response, Echo> {
         Err(Echo::Std)
+    }
+}
+
+pub mod fieldless {
+    //! instantiate / migrate WITHOUT arguments: attributes forwarded to those kinds still land on the (empty) structs
+    use super::*;
+    pub struct AttrD;
+    #[sylvia::contract]
+    #[sv::error(Echo)]
+    #[sv::msg_attr(instantiate, derive(PartialOrd))]
+    #[sv::msg_attr(migrate, derive(PartialOrd))]
+    impl AttrD {
+        pub const fn new() -> Self {
+            AttrD
+        }
+        #[sv::msg(instantiate)]
+        fn instantiate(&self, ctx: InstantiateCtx) -> Result<Response, Echo> {
+            Err(Echo::Std)
+        }
+        #[sv::msg(migrate)]
+        fn migrate(&self, ctx: sylvia::ctx::MigrateCtx) -> Result<Response, Echo> {
+            Err(Echo::Std)
+        }
     }
 }
 
@@ -123,6 +148,10 @@ pub mod proofs {
         const _: () = assert!(!Probe::<sv::SudoMsg>::HAS);
         const _: () = assert!(!Probe::<sv::ContractExecMsg>::HAS);
         // T-END fx_attr.T.msg_attr_lands_on_designated_kinds_only
+        // T-BEGIN fx_attr.T.msg_attr_on_fieldless_struct_messages
+        const _: () = assert!(Probe::<fieldless::sv::InstantiateMsg>::HAS);
+        const _: () = assert!(Probe::<fieldless::sv::MigrateMsg>::HAS);
+        // T-END fx_attr.T.msg_attr_on_fieldless_struct_messages
         // T-BEGIN fx_attr.T.accepted
         let _ = AttrC::new();
         // T-END fx_attr.T.accepted
